@@ -1828,6 +1828,37 @@ def desugar_ifexp(model) -> bool:
 _cm_counter = [0]
 
 
+def _cm_names_portable(model, cls_info, user_scope) -> bool:
+    """every global name read by the class's methods resolves to the same function / class / external object from the user's module
+    (functions of the class's own module that the user's module does not import are imported there: the analysed program only)"""
+    own = cls_info.module
+    need_imports = set()
+    for meth in cls_info.methods.values():
+        bound_ = {a.arg for a in ast.walk(meth.node.args) if isinstance(a, ast.arg)} | {x.id for x in ast.walk(meth.node) if isinstance(x, ast.Name) and isinstance(x.ctx, ast.Store)}
+        for x in ast.walk(meth.node):
+            if not (isinstance(x, ast.Name) and isinstance(x.ctx, ast.Load)) or x.id in bound_:
+                continue
+            b1 = model.resolve_name(meth, x.id)
+            b2 = model.resolve_name(user_scope, x.id)
+            if b1.kind in ("builtin",) and b2.kind == "builtin":
+                continue
+            if b1.kind in ("func", "class") and b2.kind == b1.kind and b1.target is b2.target:
+                continue
+            if b1.kind == "ext" and b2.kind == "ext" and b1.target == b2.target:
+                continue
+            if b1.kind in ("func", "class") and b2.kind == "unknown" and b1.target.module is own and getattr(b1.target, "parent", None) is None \
+                    and getattr(b1.target, "cls", None) is None:
+                need_imports.add(x.id)  # a function / class of the class's own module that the user's module does not import (yet)
+                continue
+            return False  # a module-level variable of the class's module, or a name that means something else over there
+    if need_imports:
+        umod = user_scope.module
+        umod.tree.body.insert(0, ast.ImportFrom(module="_" + own.short.lstrip("_") if False else own.short, names=[ast.alias(name=n_, asname=None) for n_ in sorted(need_imports)], level=1))
+        ast.fix_missing_locations(umod.tree)
+        model._reindex()
+    return True
+
+
 def _cm_class_ok(cls_node: ast.ClassDef) -> Optional[dict]:
     """{method name: FunctionDef} of a plain class that can be dissolved into its user: no bases (or object), no
     decorators / metaclass, only methods (+ docstring, __slots__), with __enter__ and __exit__."""
@@ -1947,9 +1978,16 @@ def dissolve_new_cm_classes(model, module_names: dict) -> list:
                 key = (b.target.module.short, b.target.name)
                 # the spliced statements must mean the same in the user's module: same module only; the storage
                 # module's classes are roles of their own (flag / stack typestates read them as they are)
-                if key[0] in ROLE_MODULES or not isinstance(scope, FuncInfo) or scope.module.short != key[0]:
+                if not isinstance(scope, FuncInfo) or key not in classes:
                     return None
-                return key if key in classes else None
+                if scope.module.short != key[0] or key[0] in ROLE_MODULES:
+                    # a class of another module (or of the storage module, whose classes normally are roles): only when it is a pure
+                    # *user* of names that mean the same thing in the using module -- every global its methods mention is bound to the
+                    # same object there (imported from the class's module, or from the same third module), and it touches no
+                    # module-level state of its own module directly
+                    if scope.module.short == key[0] or not _cm_names_portable(model, b.target, scope):
+                        return None
+                return key
         return None
 
     def expand_self_calls(stmts, selfname, meths, depth=0):
@@ -2066,6 +2104,32 @@ def dissolve_new_cm_classes(model, module_names: dict) -> list:
             if key is None:
                 continue
             meths = classes[key]
+            # `with C(..) as t:` where __enter__ hands back the object itself: `t` is the object
+            returns_self = False
+            _eb = _strip_doc(list(meths["__enter__"].body))
+            _sp = meths["__enter__"].args.args[0].arg
+            if creation is not None and _eb and isinstance(_eb[-1], ast.Return) and isinstance(_eb[-1].value, ast.Name) and _eb[-1].value.id == _sp:
+                # `obj = C(..)` ... `with obj [as t]:` where __enter__ hands back the object: `t` (if any) is a second name for `obj`
+                tgt0 = w.items[0].optional_vars
+                if tgt0 is not None:
+                    if not isinstance(tgt0, ast.Name):
+                        continue
+                    if len([x for x in _walk_own(f.node) if isinstance(x, ast.Name) and x.id == tgt0.id and isinstance(x.ctx, (ast.Store, ast.Del))]) != 1:
+                        continue
+                    for x in ast.walk(f.node):
+                        if isinstance(x, ast.Name) and x.id == tgt0.id and x is not tgt0:
+                            x.id = inst
+                    w.items[0].optional_vars = None
+                returns_self = True
+            elif creation is None and _eb and isinstance(_eb[-1], ast.Return) and isinstance(_eb[-1].value, ast.Name) and _eb[-1].value.id == _sp:
+                tgt0 = w.items[0].optional_vars
+                if not isinstance(tgt0, ast.Name):
+                    continue
+                stores0 = [x for x in _walk_own(f.node) if isinstance(x, ast.Name) and x.id == tgt0.id and isinstance(x.ctx, (ast.Store, ast.Del))]
+                if len(stores0) != 1:
+                    continue
+                returns_self = True
+                inst = tgt0.id
             # every use of the instance name
             parents = {}
             for p in ast.walk(f.node):
@@ -2073,7 +2137,7 @@ def dissolve_new_cm_classes(model, module_names: dict) -> list:
                     parents[id(c)] = p
             ok = True
             mcalls = []
-            if creation is not None:
+            if creation is not None or returns_self:
                 for x in ast.walk(f.node):
                     if isinstance(x, ast.Name) and x.id == inst and isinstance(x.ctx, ast.Load):
                         p = parents.get(id(x))
@@ -2120,11 +2184,16 @@ def dissolve_new_cm_classes(model, module_names: dict) -> list:
                 for te, re_ in zip(tgt.elts, eret.elts):
                     if te.id != "_":
                         target_map[re_.id] = te.id
+            if returns_self:
+                em = ast.FunctionDef(name="__enter__", args=em.args, body=_strip_doc(list(em.body))[:-1] or [ast.Pass()], decorator_list=[], lineno=em.lineno)
             sp = splice(em, inst, [], taken - set(target_map.values()), target_map, meths=meths)
             if sp is None:
                 continue
             enter_stmts, enter_val = sp
+            enter_stmts = [s_ for s_ in enter_stmts if not isinstance(s_, ast.Pass)]
             bind = []
+            if returns_self:
+                tgt = None  # the name stands for the dissolved object: nothing to bind
             if tgt is not None:
                 val = enter_val if enter_val is not None else ast.Constant(value=None)
                 same = isinstance(tgt, (ast.Tuple, ast.List)) and isinstance(val, ast.Tuple) and len(tgt.elts) == len(val.elts) and all(
@@ -2208,6 +2277,10 @@ def dissolve_new_cm_classes(model, module_names: dict) -> list:
                             rewrite(hd.body)
                     i += 1
 
+            rewrite(body)  # method-call statements inside the with body itself (the body list is re-used in the replacement)
+            for part_ in core:
+                if isinstance(part_, ast.Try):
+                    part_.body = body
             rewrite(f.node.body)
             # remaining field reads `inst.attr` -> the local
             class Fields(ast.NodeTransformer):
@@ -3855,4 +3928,107 @@ def forward_substitute_new_temps(model, changed: set, pinned_locals: dict) -> li
             if not rec(f.node.body):
                 break
             ast.fix_missing_locations(f.node)
+    return done
+
+
+# --------------------------------------------------------------------------- duplicate unpackings of one tuple
+def unify_duplicate_unpackings(model, only: set) -> list:
+    """`a, b, c, d = T` ... `a2, _, c2, _ = T` (T a local bound once, the first statement earlier in an enclosing block, every name
+    involved bound exactly once): the second statement gives second names to the same objects.  They are renamed to the first ones and
+    the second statement is dropped (slots the first statement left unnamed get the second's name there).  Arises when a context
+    manager that unpacked the memos in `__enter__` is dissolved into a user that unpacks them again."""
+    done = []
+    for q in sorted(only):
+        f = model.functions.get(q)
+        if f is None or f.module.short.startswith("_typeguard") or not isinstance(f.node, (ast.FunctionDef, ast.AsyncFunctionDef)):
+            continue
+        # `a = b = <expr>` with both names bound only here: two names for one object -> one name
+        stores0 = {}
+        for x in ast.walk(f.node):
+            if isinstance(x, ast.Name) and isinstance(x.ctx, (ast.Store, ast.Del)):
+                stores0[x.id] = stores0.get(x.id, 0) + 1
+            elif isinstance(x, (ast.FunctionDef, ast.AsyncFunctionDef, ast.ClassDef)) and x is not f.node:
+                stores0[x.name] = stores0.get(x.name, 0) + 1  # `def name` binds the name as well
+            elif isinstance(x, ast.ExceptHandler) and x.name:
+                stores0[x.name] = stores0.get(x.name, 0) + 1
+            elif isinstance(x, ast.alias):
+                nm_ = (x.asname or x.name).split(".")[0]
+                stores0[nm_] = stores0.get(nm_, 0) + 1
+        for st in list(_walk_own(f.node)):
+            if isinstance(st, ast.Assign) and len(st.targets) >= 2 and all(isinstance(t, ast.Name) and stores0.get(t.id) == 1 and t.id not in f.params for t in st.targets):
+                keep = st.targets[0].id
+                others = {t.id for t in st.targets[1:]}
+                if any(isinstance(x, (ast.FunctionDef, ast.AsyncFunctionDef, ast.Lambda)) and x is not f.node and any(isinstance(y, ast.Name) and y.id in others for y in ast.walk(x))
+                       for x in ast.walk(f.node)):
+                    continue
+                for x in ast.walk(f.node):
+                    if isinstance(x, ast.Name) and x.id in others:
+                        x.id = keep
+                st.targets = st.targets[:1]
+                done.append((q, keep))
+        for _ in range(4):
+            stores = {}
+            for x in ast.walk(f.node):
+                if isinstance(x, ast.Name) and isinstance(x.ctx, (ast.Store, ast.Del)):
+                    stores[x.id] = stores.get(x.id, 0) + 1
+            found = None
+
+            def is_unpack(st):
+                return isinstance(st, ast.Assign) and len(st.targets) == 1 and isinstance(st.targets[0], (ast.Tuple, ast.List)) and isinstance(st.value, ast.Name) \
+                    and all(isinstance(e, ast.Name) for e in st.targets[0].elts) and stores.get(st.value.id, 0) == 1 and st.value.id not in f.params
+
+            def rec(stmts, visible):
+                nonlocal found
+                vis = list(visible)
+                for st in stmts:
+                    if found:
+                        return
+                    if is_unpack(st):
+                        for first in vis:
+                            if first.value.id == st.value.id and len(first.targets[0].elts) == len(st.targets[0].elts):
+                                found = (first, st, stmts)
+                                return
+                        vis.append(st)
+                    if isinstance(st, (ast.FunctionDef, ast.AsyncFunctionDef, ast.ClassDef)):
+                        continue
+                    for fld in ("body", "orelse", "finalbody"):
+                        sub = getattr(st, fld, None)
+                        if isinstance(sub, list) and sub and isinstance(sub[0], ast.stmt):
+                            rec(sub, vis)
+                    for hd in getattr(st, "handlers", []) or []:
+                        rec(hd.body, vis)
+
+            rec(f.node.body, [])
+            if not found:
+                break
+            first, second, holder = found
+            ren = {}
+            ok = True
+            for e1, e2 in zip(first.targets[0].elts, second.targets[0].elts):
+                if e2.id == "_":
+                    continue
+                if e1.id == "_":
+                    if stores.get(e2.id, 0) != 1:
+                        ok = False
+                    continue
+                if e1.id == e2.id:
+                    continue
+                if stores.get(e1.id, 0) != 1 or stores.get(e2.id, 0) != 1:
+                    ok = False
+                ren[e2.id] = e1.id
+            nested = any(isinstance(x, (ast.FunctionDef, ast.AsyncFunctionDef, ast.Lambda)) and x is not f.node and any(isinstance(y, ast.Name) and y.id in ren for y in ast.walk(x))
+                         for x in ast.walk(f.node))
+            if not ok or nested:
+                break
+            for e1, e2 in zip(first.targets[0].elts, second.targets[0].elts):
+                if e1.id == "_" and e2.id != "_":
+                    e1.id = e2.id
+            for x in ast.walk(f.node):
+                if isinstance(x, ast.Name) and x.id in ren:
+                    x.id = ren[x.id]
+            holder.remove(second)
+            if not holder:
+                holder.append(ast.copy_location(ast.Pass(), second))
+            ast.fix_missing_locations(f.node)
+            done.append((q, second.value.id))
     return done
